@@ -13,6 +13,9 @@ Sections
            Coq: normal equations / orthogonality, optimality against perturbations,
            reparametrisation, voxel order / grouping, rescaling, degenerate whiteners,
            engine agreement (incl. labs kalman from the installed module), labs axis handling
+  conditioning  every engine on full-rank designs of large norm / cond 1e2..1e10 (raw-index polynomial drifts + task,
+           columns scaled by 2^-25..2^25, nearly collinear columns): fitted values, s2, dof against the exact rational fit,
+           residual/design cosines, column-rescaling invariance, engine agreement incl. t; pinv call sites translated
   gls      GLSModel with correlated covariances (exactly factored Sigma^-1 = L L' with dyadic L, Toeplitz rho^|i-j|, A A' + I):
            whitener is a factor of Sigma^-1 and equals L', generalised normal equations, generalised RSS, optimality,
            closed form, exact fit whitened with L' evaluated in Coq
@@ -599,6 +602,217 @@ def glm_ar1_section(ck, cx):
         if i < 2:
             ck.sample({"X": X.tolist(), "Y": Y.tolist(), "steps": steps, "labels_": labels.tolist(), "get_beta": beta.tolist()})
     ck.section("glm_ar1", cases=N, cases_with_shared_and_distinct_labels=multi)
+
+# ---------------------------------------------------------------- large-norm / ill-conditioned but full-rank designs
+def _cond_band(k):
+    for lo, hi in ((0, 1e2), (1e2, 1e4), (1e4, 1e6), (1e6, 1e8), (1e8, 1e10)):
+        if k < hi:
+            return "cond-%g..%g" % (lo if lo else 1, hi)
+    return "cond->1e10"
+
+
+def rand_hard_design(rng, ck, i):
+    """full column rank (exactly), cond 1e2..1e10, every entry an exact integer / dyadic float.
+    classes: polynomial drift in the RAW scan index (+ task boxcar), columns of very different scale
+    (well conditioned design . diag(2^k)), nearly collinear columns (a, a + 2^-k e)."""
+    for _ in range(50):
+        cls = ("raw-index-polynomial", "column-scales", "near-collinear", "raw-index-polynomial")[i % 4]
+        nmax = 200 if ck.thorough() else 120
+        if cls == "raw-index-polynomial":
+            n = int(rng.integers(12, nmax + 1))
+            deg = int(rng.integers(1, 5))
+            t = np.arange(n, dtype=np.int64) + int(rng.choice([0, 0, 1, 100]))
+            cols = [t ** k for k in range(deg + 1)]
+            if rng.random() < 0.7:
+                cols.append((t // int(rng.integers(3, 12))) % 2)
+            if rng.random() < 0.3:
+                cols.append(rng.integers(-3, 4, n))
+            X = np.column_stack(cols).astype(float)
+        elif cls == "column-scales":
+            n = int(rng.integers(6, 41))
+            p = int(rng.integers(2, min(n - 1, 5) + 1))
+            X = rand_design(rng, n, p).astype(float) * np.ldexp(1.0, rng.integers(-25, 26, p))[None, :]
+        else:
+            n = int(rng.integers(6, 41))
+            a = rng.integers(-5, 6, n).astype(float)
+            e = rng.integers(-3, 4, n).astype(float)
+            X = np.column_stack([np.ones(n), a, a + np.ldexp(1.0, -int(rng.integers(5, 26))) * e])
+        n, p = X.shape
+        if p >= n - 1:
+            continue
+        sv = np.linalg.svd(X, compute_uv=False)
+        if sv[-1] == 0 or not (1e2 <= sv[0] / sv[-1] <= 1e10):
+            continue
+        if exact_ls(fr_mat(X), [0] * n) is None:                    # exactly rank deficient
+            continue
+        return cls, X, float(sv[0]), float(sv[0] / sv[-1])
+    return None
+
+
+def conditioning_section(ck, cx):
+    """every engine on designs of large norm / cond 1e2..1e10: fitted values, residual variance, dof against the exact
+    rational solution; scale-free normal equations (residual/design cosine); invariance under rescaling of the columns;
+    engine agreement (fitted values, s2, t statistic)"""
+    from nipy.algorithms.statistics.models.regression import OLSModel, ARModel, WLSModel
+    from nipy.modalities.fmri.glm import GeneralLinearModel
+    from nipy.labs.glm import glm as labs
+    rng = ck.rng("conditioning")
+    N = ck.n(40, 250)
+    TOL6 = "(Qmake 1 1000000)"
+    done = 0
+    for i in range(N):
+        hd = rand_hard_design(rng, ck, i)
+        if hd is None:
+            continue
+        cls, Xf, smax, kappa = hd
+        n, p = Xf.shape
+        V = int(rng.integers(1, 4))
+        Y = rng.integers(-9, 10, (n, V)).astype(np.int64)
+        if rng.random() < 0.5:                                       # signal living on the design's own scale
+            Y = Y + np.rint(Xf[:, [int(rng.integers(0, p))]] * 2.0 ** -int(np.floor(np.log2(1 + np.abs(Xf).max())) - 3)).astype(np.int64)
+        Yf = Y.astype(float)
+        band = _cond_band(kappa)
+        feat = "%s/%s" % (cls, band)
+        rep = {"X": Xf.tolist(), "Y": Y.tolist(), "design_class": cls, "smax": smax, "cond": kappa}
+        XF = fr_mat(Xf)
+        ex = [exact_ls(XF, Y[:, v].tolist()) for v in range(V)]
+        if any(e is None for e in ex) or any(e[2] == 0 for e in ex):
+            continue
+        done += 1
+        ck.count(("cond", Xf.tobytes(), Y.tobytes()), bucket="conditioning:%s" % feat)
+        fit_ex = np.array([[float(sum(XF[r][j] * e[0][j] for j in range(p))) for e in ex] for r in range(n)])
+        s2_ex = np.array([float(e[2] / (n - p)) for e in ex])
+        ysc = 1.0 + np.abs(Yf).max()
+        cvec = np.zeros(p)
+        cvec[int(rng.integers(0, p))] = 1.0
+
+        def run_engines(Xd):
+            out = {}
+
+            def add(nm, fn):
+                try:
+                    out[nm] = fn()
+                except Exception as e:  # noqa
+                    ck.fail("%s/raises/%s" % (nm, feat), "%s raised %s: %s" % (nm, type(e).__name__, e), rep)
+
+            def e_models():
+                r = OLSModel(Xd).fit(Yf)
+                return (Xd @ r.theta, np.atleast_1d(r.dispersion), r.df_resid, np.atleast_1d(r.Tcontrast(cvec).t))
+
+            def e_fmri():
+                g = GeneralLinearModel(Xd)
+                g.fit(Yf, "ols")
+                return (Xd @ g.get_beta(), g.get_mse(), list(g.results_.values())[0].df_resid, np.atleast_1d(g.contrast(cvec).stat()))
+
+            def e_labs(axis):
+                def f():
+                    G = labs.glm(Yf if axis == 0 else np.ascontiguousarray(Yf.T), Xd, axis=axis)
+                    b = G.beta if axis == 0 else G.beta.T
+                    return (Xd @ b, np.atleast_1d(G.s2), G.dof, np.atleast_1d(G.contrast(cvec).stat()).ravel())
+                return f
+
+            add("models.OLSModel", e_models)
+            add("fmri.GeneralLinearModel.ols", e_fmri)
+            add("labs.glm.ols.axis0", e_labs(0))
+            add("labs.glm.ols.axis1", e_labs(1))
+            return out
+        eng = run_engines(Xf)
+        for nm, (fit, s2, dof, tstat) in eng.items():
+            tolf = 1e-6
+            if fit.shape != (n, V) or np.asarray(s2).shape != (V,):
+                ck.fail("%s/shape/%s" % (nm, feat), "fitted / s2 shapes %s / %s" % (fit.shape, np.asarray(s2).shape), rep)
+                continue
+            if float(dof) != n - p:
+                ck.fail("%s/dof/%s" % (nm, feat), "dof %r != n - p = %d for a full-rank design" % (dof, n - p), rep)
+            if np.abs(fit - fit_ex).max() > tolf * ysc:
+                ck.fail("%s/fitted-values-differ-from-exact-least-squares/%s" % (nm, feat),
+                        "fitted values differ from the exact rational least-squares fit by %.3g (data scale %.3g)" % (np.abs(fit - fit_ex).max(), ysc),
+                        dict(rep, engine=nm))
+            if np.any(np.abs(np.asarray(s2) / s2_ex - 1) > 10 * tolf):
+                ck.fail("%s/residual-variance-differs-from-exact/%s" % (nm, feat), "s2 = %s, exact RSS/(n-p) = %s" % (np.asarray(s2).tolist(), s2_ex.tolist()),
+                        dict(rep, engine=nm))
+            res = Yf - fit
+            cosang = (np.abs(Xf.T @ res) / (np.linalg.norm(Xf, axis=0)[:, None] * np.linalg.norm(res, axis=0)[None, :])).max()
+            if cosang > 1e-6:
+                ck.fail("%s/residuals-not-orthogonal-to-design/%s" % (nm, feat), "largest residual/column cosine %.3g" % cosang, dict(rep, engine=nm))
+        # Kalman engine (installed module): (K1) the implementation against the EXACT outcome of its own recursion, the
+        # solution of (X'X + 1e-7 I) b = X'y (theorem kalman_ols_equals_batch_partial); (K2) that exact outcome against exact
+        # OLS, i.e. the property clause "engines agree / the fit depends on the column space only" for this engine
+        try:
+            K = labs.glm(Yf, Xf, method="kalman")
+            fk = Xf @ K.beta
+            LAMK = Fraction(1, 10 ** 7)
+            rid = [ridge_exact(XF, Y[:, v].tolist(), LAMK) for v in range(V)]
+            fit_rid = np.array([[float(sum(XF[r_][j] * rb[0][j] for j in range(p))) for rb in rid] for r_ in range(n)])
+            smin = smax / kappa
+            if float(K.dof) != n - p:
+                ck.fail("labs.glm.kalman/dof/%s" % feat, "dof %r != n - p" % K.dof, rep)
+            if np.abs(fit_rid - fit_ex).max() > 1e-5 * ysc:
+                ck.fail("engines/labs-kalman-prior-not-negligible/design-singular-value-%s" % ("below-1" if smin < 1 else "at-least-1"),
+                        "labs glm method='kalman': the EXACT result of the filter (prior variance 1e7, i.e. (X'X + 1e-7 I) b = X'y) differs from least "
+                        "squares by %.3g in the fitted values (data scale %.3g) because the design has a singular value %.3g: e.g. a design column "
+                        "written on a small scale; the fit is not invariant under column rescaling and differs from method='ols'" % (
+                            np.abs(fit_rid - fit_ex).max(), ysc, smin), dict(rep, smallest_singular_value=smin))
+            if np.abs(fk - fit_rid).max() > 1e-5 * ysc:
+                ck.fail("engines/labs-kalman-float-instability/design-norm-%s" % ("at-least-1e2" if smax >= 1e2 else "below-1e2"),
+                        "labs glm method='kalman': fitted values differ by %.3g (data scale %.3g) from the exact outcome of the filter's own recursion "
+                        "(covariance-form update starting from Vb = 1e7 I loses the small entries of Vb): design smax %.3g, cond %.3g" % (
+                            np.abs(fk - fit_rid).max(), ysc, smax, kappa), dict(rep, kalman_fitted=fk.tolist()))
+        except ImportError:
+            pass
+        # engines agree (fitted values, s2, t statistic of a coefficient)
+        if "models.OLSModel" in eng:
+            f0, s0, d0, t0 = eng["models.OLSModel"]
+            for nm, (fit, s2, dof, tstat) in eng.items():
+                if fit.shape != f0.shape:
+                    continue
+                bad = np.abs(fit - f0).max() > 1e-5 * ysc or np.any(np.abs(np.asarray(s2) / s0 - 1) > 1e-4)
+                if tstat is not None and tstat.shape == t0.shape:
+                    bad = bad or np.any(np.abs(tstat - t0) > 1e-4 * (1 + np.abs(t0)))
+                if bad:
+                    ck.fail("engines/%s-vs-models.OLSModel/%s" % (nm, feat), "engines disagree on fitted values / s2 / t on an ill-conditioned full-rank design",
+                            dict(rep, engine=nm))
+        # same column space, columns rescaled by powers of two (t -> t/2^k ...): fitted values and s2 unchanged
+        A = np.ldexp(1.0, -np.floor(np.log2(np.abs(Xf).max(axis=0))).astype(int))
+        if rng.random() < 0.5:
+            A = A * np.ldexp(1.0, rng.integers(-8, 9, p))
+        X2 = Xf * A[None, :]
+        eng2 = run_engines(X2)
+        for nm in eng:
+            if nm in eng2 and eng[nm][0].shape == eng2[nm][0].shape == (n, V):
+                if np.abs(eng[nm][0] - eng2[nm][0]).max() > 1e-5 * ysc or np.any(np.abs(np.asarray(eng[nm][1]) / np.asarray(eng2[nm][1]) - 1) > 1e-4):
+                    ck.fail("reparam/%s/column-rescaling-changes-the-fit/%s" % (nm, feat),
+                            "fitted values / s2 change when the design columns are rescaled by powers of two (same column space)",
+                            dict(rep, engine=nm, column_factors=A.tolist()))
+        # whitened engines on the same designs (normal equations of the whitened problem, scale free)
+        rho = float(Fraction(int(rng.integers(-3, 4)), 4))
+        w = (rng.integers(1, 4, n) ** 2).astype(float)
+        for nm, mk in (("models.ARModel", lambda: ARModel(Xf, [rho])), ("models.WLSModel", lambda: WLSModel(Xf, weights=w))):
+            try:
+                r = mk().fit(Yf)
+            except Exception as e:  # noqa
+                ck.fail("%s/raises/%s" % (nm, feat), "%s raised %s: %s" % (nm, type(e).__name__, e), rep)
+                continue
+            wX, wr = r.model.wdesign, np.asarray(r.wresid)
+            if np.linalg.cond(wX) > 1e10:
+                continue
+            nr = np.linalg.norm(wr, axis=0)
+            cosang = (np.abs(wX.T @ wr) / (np.linalg.norm(wX, axis=0)[:, None] * np.where(nr > 0, nr, 1)[None, :])).max()
+            if cosang > 1e-6:
+                ck.fail("%s/residuals-not-orthogonal-to-design/%s" % (nm, feat), "largest whitened residual/column cosine %.3g" % cosang,
+                        dict(rep, engine=nm, rho=rho, weights=w.tolist()))
+        # model: exact fitted values / s2 evaluated in Coq (certified solver) against every engine
+        if n <= 40 and ck.build is not None and ck.build.ok:
+            for nm, (fit, s2, dof, tstat) in eng.items():
+                if fit.shape == (n, V):
+                    cx.term("fitted_close %s (q_ref_fitted %s %s %s %s) %s %s" % (
+                        TOL6, cnat(p), cnat(V), qm(Xf), zm(Y), qm(fit.T), qv(s2)),
+                        "model-vs-impl/fitted/%s/%s" % (nm, feat), "%s: fitted values / s2 differ from the certified exact fit of the model" % nm,
+                        dict(rep, engine=nm, fitted=fit.tolist(), s2=np.asarray(s2).tolist()))
+        if done <= 1:
+            ck.sample({"hard_design": cls, "n": n, "p": p, "smax": smax, "cond": kappa})
+    ck.section("conditioning", cases=done)
+
 
 # ---------------------------------------------------------------- generalised least squares with correlated covariances
 def _frac_inv_lower(L):
@@ -1197,6 +1411,7 @@ def run(ck):
     pos_recipr_section(ck, cx)
     stat_scale_section(ck)
     gls_section(ck, cx)
+    conditioning_section(ck, cx)
     cx.flush()
     ck.section("model", coq_terms=len(cx.terms))
     ck.trust.append("oracle contracts (hypotheses of pinv_solves_normal_eq / ols_fit_optimal): numpy.linalg.pinv returns P with "
